@@ -319,6 +319,9 @@ def run(ctx):
         check_concat(ctx, specs)
         ctx.nontrivial(('concat', ctx.seed, ctx.shard, j))
         n += 1
+    for seq in gen.protocol_sequences(ctx.rng, 160 if ctx.tier == 'quick' else 8000):
+        check_concat(ctx, seq)
+        n += 1
     # size ladders: long sysex as the appended message, thousands of messages in one call
     # (spread over the shards: one size per shard)
     k_ladder = 0
